@@ -48,11 +48,15 @@ var cmdMenu = []cmdFile{
 	{Name: "dir.json", Dir: true},
 	{Name: "empty.json", Content: ``},
 	{Name: "noops.json", Content: ` [ ] `},
+	{Name: "rootnull.json", Content: `[{"op":"replace","path":"","value":null}]`},
+	{Name: "rma.json", Content: `[{"op":"remove","path":"/a"}]`},
+	{Name: "testlt.json", Content: `[{"op":"test","path":"/z","value":"<%s %d 100%"}]`},
 	{Name: "rootarr.json", Content: `[{"op":"replace","path":"","value":[{"a":1}]}]`},
 }
 
 var cmdStdin = []string{
 	`{"a":1,"b":{"c":"s"}}`,
+	` {"a" : 1 , "a":2, "z":"<"}`,
 	`{"a":"50%","%v":["%!s(MISSING)","\\n%%"]}`,
 	" {\n  \"a\" : [ 1 , 2 ] ,\n  \"k\" : [ 1 ]\n }\n",
 	`[{"a":1},2]`,
@@ -234,8 +238,11 @@ func cmdExpected(legacy bool, files []cmdFile, stdin string) cmdExpect {
 	// phase 2: fold
 	cur := []byte(stdin)
 	refCur, rerr := rj.Parse([]byte(stdin))
-	x.refKnown = rerr == nil && (refCur.K == rj.Obj || refCur.K == rj.Arr)
+	x.refKnown = rerr == nil && (refCur.K == rj.Obj || refCur.K == rj.Arr) && !rj.HasDup(refCur) // duplicate names: no value oracle
 	for _, f := range files {
+		if x.refKnown && legacy && strings.Contains(f.Content, `"test"`) && strings.ContainsAny(f.Content, "<>&") {
+			x.refKnown = false // the legacy test compares string spellings: HTML characters are outside its stated domain (C18)
+		}
 		call := impl.Call{Doc: cur, Patch: []byte(f.Content), Opt: r69.Options{Neg: true, EscapeHTML: true}, UseDefaults: true}
 		var o impl.Obs
 		if legacy {
